@@ -429,6 +429,19 @@ def loops_over(f, field):
         c0 = strip(c)
         if not isinstance(c0, dict):
             continue
+        # `flag && it != end` (a loop that also stops on a flag, like a break): the conjunct that compares the cursor
+        if c0.get('k') == 'bin' and c0.get('op') == '&&':
+            parts, st = [], [c0]
+            while st:
+                x = strip(st.pop())
+                if isinstance(x, dict) and x.get('k') == 'bin' and x.get('op') == '&&':
+                    st += [x['r'], x['l']]
+                elif isinstance(x, dict):
+                    parts.append(x)
+            cmpp = [x for x in parts if (x.get('k') == 'call' and (x.get('op') in ('!=', '<') or basename(x.get('name') or '').startswith('operator!='))) or
+                    (x.get('k') == 'bin' and x.get('op') in ('!=', '<', '<='))]
+            if len(cmpp) == 1:
+                c0 = cmpp[0]
         l = r = None
         op = None
         if c0.get('k') == 'call' and c0.get('op') in ('!=', '<') or \
@@ -636,6 +649,14 @@ def canon_before_intern(ctx, rid, f, exempt=None):
             if r is not None:
                 bad = r
         key = (f.name, e.get('name'), v)
+        if bad is not None and exempt is not None and key not in exempt:
+            # an exemption stated over where the value comes from (`elem-of:<field>`), whatever the variable is called
+            for (fn_, callee_, spec), why in exempt.items():
+                if fn_ == f.name and callee_ == e.get('name') and str(spec).startswith('elem-of:'):
+                    fld = spec.split(':', 1)[1]
+                    os_ = origins(f, parg)
+                    if os_ and all(isinstance(o, dict) and (mentions_field(o.get('of') if o.get('k') == 'elem' else o, fld)) for o in os_):
+                        key = (fn_, callee_, spec)
         if bad is not None and exempt is not None and key in exempt:
             ctx.inst(rid, f.where(e), '%s in %s not canonicalised here (exempt: %s)' % (
                 e.get('name'), f.name, exempt[key]))
